@@ -99,6 +99,7 @@ var lgTable = []lgEntry{
 	{Rule: "L2", Func: "tensor.(StdEng).Dot", Site: "$r.Inner(", Goal: "((%reuse == nil) && (%incr == nil))", Props: []string{"C09", "C07"}, Why: "the vector inner product is returned as a new scalar tensor: a reuse or increment destination would be silently ignored, so it is refused (finding 75)"},
 	{Rule: "L2", Func: "tensor.(StdEng).Dot", Site: ".TensorMul(", Goal: "(%incr == nil)", Props: []string{"C09", "C07"}, Why: "the rank >= 3 contraction builds its own result and only copies it into a reuse tensor: an increment destination would be silently ignored, so it is refused (finding 75)"},
 	{Rule: "L1", Func: "tensor.(StdEng).RepeatReuse", Site: "$r.denseRepeat(", Goal: "(%ok && $reuse.Shape().Eq(%newShape))", Props: []string{"C10", "C13"}, Why: "a reuse destination is accepted only when its shape is the computed result shape: the repeat fills it by the result's geometry, and the returned tensor must have the shape the shape-only calculator predicts"},
+	{Rule: "S21", Func: "tensor.(Shape).Concat", Site: "return ", NotAfter: "errors.", Goal: "(!(0 > $axis) && (!($axis >= $r.Dims()) || !($axis >= len($r))))", Props: []string{"C13", "C10"}, Why: "the concatenation axis is an axis of the operands: an axis equal to the rank is accepted by no execution path (denseConcat indexes the shape with it)"},
 	// ---- mask inspection (C15) -----------------------------------------------------------------------
 	{Rule: "L1", Func: "tensor.doMaskAll", Site: "range %ts.mask", Goal: "(%ts.IsMasked() && (%ts.Size() == len(%ts.mask)))", Props: []string{"C15"}, Why: "the whole-mask fold is the fold over the tensor's elements only when the mask covers exactly those elements (a view's mask window is longer)"},
 	{Rule: "L1", Func: "tensor.doMaskAny", Site: "range %ts.mask", Goal: "(%ts.IsMasked() && (%ts.Size() == len(%ts.mask)))", Props: []string{"C15"}, Why: "the whole-mask fold is the fold over the tensor's elements only when the mask covers exactly those elements"},
@@ -189,6 +190,7 @@ func LGuards(rc *RC, prop string) {
 		{"L3", "order agreement: a raw access that pairs the storage of two tensors, or assumes row-major storage, is conditioned on their data order"},
 		{"L4", "exporters into a row-major external format consult the tensor's data order"},
 		{"F5", "npy header: the rank-1 header form is used only for rank-1 tensors"},
+		{"S21", "axis bounds of the shape calculators: every accepting path has established 0 <= axis < rank (the calculator fails exactly when the operation fails)"},
 		{"LB", "BLAS gateway: each trans flag / leading dimension is derived from a test of that operand's lazy-transpose state and data order on every path to the BLAS call"},
 	} {
 		rc.S.Declare(r[0], r[1], 0)
